@@ -17,14 +17,14 @@ def run(tier):
     cases, meta = [], []
     wd = common.workdir()
 
-    def add(c, start, prog, tag, second=None, use_file=False, prior_fail=None):
+    def add(c, start, prog, tag, second=None, use_file=False, prior_fail=None, internal=False):
         lines = [p[0] for p in prog]
         hexes = [p[1] for p in prog]
         lens = [len(h) // 2 for h in hexes]
         total = sum(lens)
         total2 = sum(len(p[1]) // 2 for p in second) if second else 0
         ptot = sum(len(p[1]) // 2 for p in prior_fail[1]) if prior_fail else 0
-        cmds = ["new 0 ext %d H 0xcc" % (start + total + total2 + ptot + 64)]
+        cmds = ["new 0 int" if internal else "new 0 ext %d H 0xcc" % (start + total + total2 + ptot + 64)]
         if prior_fail:
             # an earlier counting call that FAILS after some of its instructions crossed boundaries: its partial count must not
             # reach the next call ("the count is that of the current call only")
@@ -62,8 +62,20 @@ def run(tier):
         second = [rnd.choice(allc) for _ in range(rnd.randrange(1, 20))] if k % 3 == 0 else None
         prior = (rnd.choice([2, 3, 5, 8]), [rnd.choice(allc) for _ in range(rnd.randrange(2, 12))]) if k % 4 == 1 else None
         add(c, max(0, start), prog, "random", second, use_file=(k % 7 == 0), prior_fail=prior)
+    # library-managed buffers (which GROW during the call) with chunk sizes around and above their size (6020 bytes at first, then
+    # +6000 per growth): the crossing instruction lies at an offset the mapping did not cover when the call began
+    big = [6000, 6019, 6020, 6021, 8192, 12020, 12040, 65536, 100000]
+    for k in range(120 if not full else 3000):
+        c = rnd.choice(big)
+        prog = [rnd.choice(allc) for _ in range(rnd.randrange(1, 12))]
+        L0 = len(prog[0][1]) // 2
+        # start so that one of the first instructions straddles offset c (or 2c), or just does not
+        m = rnd.choice([1, 1, 2])
+        start = max(0, m * c - rnd.randrange(0, L0 + 3))
+        second = [rnd.choice(allc) for _ in range(rnd.randrange(1, 6))] if k % 3 == 0 else None
+        add(c, start, prog, "growing", second, internal=(k % 4 != 3))
     res = common.run_cases(binary, cases, tag="c14")
-    stats = {"grid_cases": 0, "random_cases": 0, "nonzero_counts": 0, "max_count": 0, "file_cases": 0, "second_calls": 0, "c_below_2": 0}
+    stats = {"grid_cases": 0, "random_cases": 0, "growing_cases": 0, "nonzero_counts": 0, "max_count": 0, "file_cases": 0, "second_calls": 0, "c_below_2": 0}
     for (c, start, lines, hexes, lens, tag, second, use_file, shift), cmds, r in zip(meta, cases, res):
         v.count()
         stats[tag + "_cases"] += 1
@@ -109,7 +121,7 @@ def run(tier):
         if v.cov["evaluations"] % 1200 == 1:
             v.sample({"chunk": c, "start": start, "n_lines": len(lines), "count": expc, "tail": lines[-2:]})
     v.cov["rule"] = ("the C13 grid (every chunk size x position x encoded length) with counting instead of fitting, plus seeded programs x chunk sizes incl. 0, 1, -1, len, len+1, 10^6 x start offsets x a second counting "
-                     "call on the same instance x the file variant x (one case in four) an earlier counting call that failed after some boundary crossings; oracle: bytes == plain encoding, count == number of instructions with (pos mod c)+len > c at their final positions, count of the current call only, c<2 -> 0")
+                     "call on the same instance x the file variant x (one case in four) an earlier counting call that failed after some boundary crossings; library-managed buffers with chunk sizes 6000..100000 and start offsets that put the first instructions across offset c or 2c (the mapping grows during the call); oracle: bytes == plain encoding, count == number of instructions with (pos mod c)+len > c at their final positions, count of the current call only, c<2 -> 0")
     v.cov["exhaustive"] = True
     v.cov.update(stats)
     return v.finish(None, stats["nonzero_counts"] > 100, "too few non-zero counts observed: %r" % stats)
